@@ -370,32 +370,62 @@ func cmdCheck(args []string) {
 		filtered = append(filtered, j)
 	}
 	jobs = filtered
-	results := make([]sym.JobResult, len(jobs))
+	// dynamic work queue: big jobs hand sub-trees of their DFS to idle workers
+	var qmu sync.Mutex
+	qcond := sync.NewCond(&qmu)
+	queue := append([]sym.Job{}, jobs...)
+	var allJobs []sym.Job
+	var results []sym.JobResult
+	running, idle, done := 0, 0, 0
+	wantWork := func() bool {
+		qmu.Lock()
+		defer qmu.Unlock()
+		return idle > 0 && len(queue) == 0
+	}
+	spawn := func(j sym.Job) {
+		qmu.Lock()
+		queue = append(queue, j)
+		qmu.Unlock()
+		qcond.Signal()
+	}
 	var wg sync.WaitGroup
-	ch := make(chan int)
-	var doneMu sync.Mutex
-	done := 0
 	for w := 0; w < *workers; w++ {
 		wg.Add(1)
 		go func() {
 			defer wg.Done()
-			for i := range ch {
-				results[i] = sym.RunJob(prog, jobs[i], *solver, *timeoutMs)
-				doneMu.Lock()
-				done++
-				if *verbose {
-					r := results[i]
-					fmt.Fprintf(os.Stderr, "[%d/%d] %s%v paths=%d q=%d viol=%d wall=%.1fs %v %s\n", done, len(jobs), jobs[i].Harness, jobs[i].Args, r.Stats.Paths, r.Solver.Queries, len(r.Violations), r.Wall, r.Inconclusive, firstLine(r.EngineError))
+			for {
+				qmu.Lock()
+				for len(queue) == 0 && running > 0 {
+					idle++
+					qcond.Wait()
+					idle--
 				}
-				doneMu.Unlock()
+				if len(queue) == 0 {
+					qmu.Unlock()
+					qcond.Broadcast()
+					return
+				}
+				j := queue[0]
+				queue = queue[1:]
+				running++
+				qmu.Unlock()
+				j.WantWork, j.Spawn = wantWork, spawn
+				r := sym.RunJob(prog, j, *solver, *timeoutMs)
+				qmu.Lock()
+				running--
+				done++
+				allJobs = append(allJobs, j)
+				results = append(results, r)
+				if *verbose {
+					fmt.Fprintf(os.Stderr, "[%d] %s%v prefix=%v paths=%d q=%d+%d viol=%d wall=%.1fs %v %s\n", done, j.Harness, j.Args, j.Prefix, r.Stats.Paths, r.Solver.Queries, r.IntSolver.Queries, len(r.Violations), r.Wall, r.Inconclusive, firstLine(r.EngineError))
+				}
+				qmu.Unlock()
+				qcond.Broadcast()
 			}
 		}()
 	}
-	for i := range jobs {
-		ch <- i
-	}
-	close(ch)
 	wg.Wait()
+	jobs = allJobs
 
 	// aggregate
 	ev := newEvidence(id, *tier, seed, spec)
